@@ -11,7 +11,7 @@ def run(chk):
     libs = _compose.load(_compose.KERNEL_LIBS, chk)
     _compose.obligations(chk, "C08", libs, own_drivers=_graph.DRIVERS)
     for lib in libs:
-        lib.run_family(chk, "C08")
+        _compose.run_lib(lib, chk, "C08")
     _graph.run_family(chk, {"C08"}, tier="quick")
     _compose.finish(chk)
     chk.trusted += ["agreement 'up to float32 rounding' on general float inputs is measured, not proved; CUDA/OpenCL backends cannot be built here"]
